@@ -156,7 +156,7 @@ def evaluate_custom(scripts, drivers):
                 if app_of(a) != app_of(b):
                     issues.append({"kind": "correspondence", "script": s, "frame": fi, "driver": dname,
                                    "impl": repr(app_of(a))[:200], "model": repr(app_of(b))[:200]})
-            w = s.tag.split("|")
+            w = s.tag.replace("+gaps", "").split("|")
             if w[0] == "prefix":
                 r = app_of(io[si][0])
                 if r[0] == "DATA" and (w[1] not in complete or int(w[3]) < complete[w[1]][0]):
@@ -164,7 +164,7 @@ def evaluate_custom(scripts, drivers):
         for name, (off, r) in complete.items():
             stats["streams"][name] = off
         for si, s in enumerate(scripts):
-            w = s.tag.split("|")
+            w = s.tag.replace("+gaps", "").split("|")
             if w[0] == "prefix":
                 continue
             if w[0].startswith("corpus"):
@@ -175,7 +175,8 @@ def evaluate_custom(scripts, drivers):
                 ref = complete.get(name)
             stats["segmentations"] += 1
             stats["monitor_evals"] += 1
-            outs = [app_of(o) for o in io[si]]
+            # time passing between the segments (runner.adv_frame pseudo-frames) is not a segment
+            outs = [app_of(o) for f, o in zip(s.frames, io[si]) if runner.adv_seconds(f) is None]
             known = False          # cuts inside the signature were a known finding until fix (prefix buffer): now ordinary cases
             if cuts[0] < siglen:
                 stats["known_class_cases"] += 1
